@@ -44,7 +44,7 @@ def finalize_base(h):
 @contract('C02/Powell.Finalize', ['C02', 'C03', 'C07'], SO + '::PowellDirectionalSolver.Finalize')
 def finalize_powell(h):
     """for every combination of (decoupled energy history | none) x (live | stale) x any number of records"""
-    eh = h.choice('energy_history', ['None', 'list'])
+    eh = h.choice('energy_history_kind', ['None', 'list'])
     s, stepmon, pop = _base(h, SO + '::PowellDirectionalSolver')
     if eh == 'list':
         h.set_field(s, '_energy_history', h.list_real('energy_history', inf=True))
